@@ -33,7 +33,7 @@ PROC_CFG = 'SPECIFICATION Spec\nCONSTANTS\n MaxLen = %d\nINVARIANT HistoryIndepe
 
 def child(args):
     util, texts = args
-    env = dict(os.environ, PYTHONPATH='/repo/src')
+    env = dict(os.environ, PYTHONPATH=os.environ.get('VERIF_REPO_SRC', '/repo/src'))
     path = os.path.join(core.WORK, PROP, 'hist_%d_%s.json' % (int(util), '_'.join(str(t) for t in texts)))
     with open(path, 'w') as fh:
         json.dump([POOL[t - 1] for t in texts], fh)
